@@ -9,6 +9,9 @@ Leg M: TLC checks (MC_Env) for every presence pattern of 4 names over the data a
        Two quoted names whose identifier-safe placeholders coincide (`x y`, `x-y`) inside one python
        factor are two names to the model ("q", "r"): every presence pattern of the two over data and
        context, with the same sufficiency / necessity laws.
+       Calls that receive names by keyword (`np.clip(x, a_min=z, a_max=None)`, `I(np.clip(a=\`x y\`, a_min=x, a_max=None))`;
+       np = the numpy module of the transforms layer): a keyword's value is read like a positional argument; every
+       presence pattern of the names read over data and context, same laws.
 Leg R: every case is executed with real frames, context mappings and the real TRANSFORMS:
        Formula.required_variables, success or FactorEvaluationError, cells (data and context hold
        different numbers, so the source of a value is observable), variables_by_source,
@@ -298,7 +301,7 @@ MATCHERS = {"required_variables_of_transform_named_column": _m_transforms_name, 
 def run(ctx: Ctx) -> None:
     global BYKEY
     ctx.rule = ("256 presence patterns of the names x, z, I (also a transform), `x y` (needs quoting) over data and context x 7 formulas (plain, quoted, call, "
-                "brace expression, interaction); 120 (column order, left-hand side incl. a name that needs quoting) cases for '.'; non-trivial = some name present in two layers")
+                "brace expression, interaction; calls with keyword arguments whose values are names: every pattern of the names read); 120 (column order, left-hand side incl. a name that needs quoting) cases for '.'; non-trivial = some name present in two layers")
     ctx.trusted = ["the concrete values placed in data / context (different per layer so that the source is observable)", "TLC"]
     ctx.matchers = MATCHERS
     out = workdir("c17") / "cases.ndjson"
